@@ -5,7 +5,7 @@ export GOFLAGS=-mod=mod GOPROXY=off
 set -u
 cmd=$1
 if [ "$cmd" = verify ]; then
-  id=$2; name=$3; wt=/tmp/seed/$id
+  id=$2; name=$3; base=${4:-/tmp/seed}; wt=$base/$id
   cd $wt || exit 2
   [ -f SEED/patch.diff ] || { echo "no SEED/patch.diff"; exit 2; }
   demo=$(python3 -c "import json;print(json.load(open('SEED/meta.json'))['demo_cmd'])")
@@ -29,9 +29,15 @@ if [ "$cmd" = run ]; then
   chk=${4:-$id}
   cd /repo && git diff --quiet || { echo "/repo dirty"; exit 2; }
   git -C /repo apply /verif/seeded/$name/patch.diff || exit 2
+  rm -rf /verif/violations/$chk
   cd /verif && ./bin/vcheck $chk --tier $tier > /tmp/seed/_run_$name.log 2>&1; rc=$?
+  rep="-"
+  art=$(grep -m1 -o "replay=[^ ]*" /tmp/seed/_run_$name.log | cut -d= -f2)
+  if [ -n "$art" ]; then if ./bin/vcheck replay $art 2>/dev/null | grep -q "^REPRODUCED"; then rep=reproduced; else rep=NOT-reproduced; fi; fi
   git -C /repo checkout -- .
+  if [ -n "$art" ]; then if ./bin/vcheck replay $art 2>/dev/null | grep -q "^NOT REPRODUCED"; then rep="$rep,clean-tree:not-reproduced"; else rep="$rep,clean-tree:REPRODUCED?"; fi; fi
+  rm -rf /verif/violations/$chk
   grep -E "^(VIOLATION|KNOWN|C[0-9]+ tier)" /tmp/seed/_run_$name.log | head -5
-  echo "seed=$name check=$chk rc=$rc"
+  echo "seed=$name check=$chk rc=$rc replay=$rep"
   exit 0
 fi
